@@ -145,19 +145,13 @@ class LinesearchSolver(NonlinearSolver):
                 scaled_lower = np.minimum(bnd0, bnd1)
                 scaled_upper = np.maximum(bnd0, bnd1)
 
-                if np.any(np.isfinite(scaled_lower)):
-                    if self._lower_bounds is None:
-                        self._lower_bounds = np.full(len(system._outputs), -np.inf)
-                    self._lower_bounds[start:end] = scaled_lower
-
-                if np.any(np.isfinite(scaled_upper)):
-                    if self._upper_bounds is None:
-                        self._upper_bounds = np.full(len(system._outputs), np.inf)
-                    self._upper_bounds[start:end] = scaled_upper
+                if self._lower_bounds is None:
+                    self._lower_bounds = np.full(len(system._outputs), -np.inf)
+                    self._upper_bounds = np.full(len(system._outputs), np.inf)
+                self._lower_bounds[start:end] = scaled_lower
+                self._upper_bounds[start:end] = scaled_upper
 
                 start = end
-        else:
-            self._lower_bounds = self._upper_bounds = None
 
     def _enforce_bounds(self, step, alpha):
         """
